@@ -66,3 +66,21 @@ package deferred
 //@   ensures lazy [C20]: result.w == nil && result.f == nil && !result.closed
 //@   ensures no_path [C20]: len(result.outPath) == 0
 //@   ensures configuration_kept [C20]: ref(result.outStream) == ref(outStream) && result.roots == roots && len(result.opts) == len(old(opts)) + 1
+
+// Callback registration and the link-system adapter (C20): a callback is registered exactly as given; the write
+// opener streams into this writer and commits under the link's own binary key.
+
+//@ func (*DeferredCarWriter).OnPut
+//@   call[append#0] assert registers_the_callback_as_given [C20]: len(arg1) == 1 && arg1[0].cb == cb && arg1[0].once == once && ref(arg0) == ref(dcw.putCb)
+
+//@ func (*DeferredCarWriter).BlockWriteOpener
+//@   closure[0]
+//@     let wr, wrcommit, perr := call[storage.PutStream#0]
+//@     call[storage.PutStream#0] assert streams_into_this_writer [C20]: ref(arg1) == ref(dcw) && arg0 == lctx.Ctx
+//@     ensures hands_out_the_stream_and_its_error [C20]: ref(result0) == ref(wr) && result2 == perr
+//@     closure[0]
+//@       let key := call[Link.Binary#0]
+//@       call[dynamic#0] assert commits_under_the_links_binary_key [C20]: arg0 == key
+//@       call[Link.Binary#0] assert of_the_committed_link [C20]: ref(arg0) == ref(lnk)
+//@     end
+//@   end
